@@ -654,8 +654,11 @@ def finish(prop, tier, seed, meta, cases, results, wall, timeout_ms, jobs):
         with open(path, "w") as f:
             json.dump(dict(property=prop, case=v["case"], key=v["key"], obligation=v["obligation"], detail=v["detail"], tier=tier, seed=seed), f, indent=1)
         lines.append(f"VIOLATION property={prop} replay={path}")
+    seen_known = {}
     for v, k in knownhits:
-        lines.append(f"KNOWN-FINDING: property={prop} {k['what']} [{v['key']}]")
+        seen_known.setdefault(id(k), (k, []))[1].append(v["key"])
+    for k, keys in seen_known.values():
+        lines.append(f"KNOWN-FINDING: property={prop} {k['what']} [{len(keys)} witness(es): {', '.join(sorted(set(keys))[:4])}]")
     samples = [s for r in results for s in r["samples"]][:6]
     if not samples:
         samples = [dict(case=c["name"]) for c in cases[:3]]
